@@ -5,7 +5,7 @@
 # so this can run while other work goes on. Results: /tmp/sweep/results.txt
 set -u
 ROOT="$(cd "$(dirname "$0")/.." && pwd)"
-S=/tmp/sweep
+S=${SWEEP_DIR:-/tmp/sweep}
 export CARGO_NET_OFFLINE=true RUST_BACKTRACE=0
 mkdir -p $S/out
 git -C /repo worktree remove --force $S/repo 2>/dev/null; rm -rf $S/repo
@@ -25,7 +25,7 @@ for ID in $IDS; do
       echo "$ID: PATCH-DOES-NOT-APPLY" | tee -a $S/results.txt; continue
     fi
   fi
-  if ! ( cd $S/harness && cargo build --profile vcheck --offline >/tmp/sweep/build.log 2>&1 ); then
+  if ! ( cd $S/harness && cargo build --profile vcheck --offline >$S/build.log 2>&1 ); then
     echo "$ID: BUILD-FAILED" | tee -a $S/results.txt; continue
   fi
   for P in $PROPS; do
